@@ -96,7 +96,8 @@ P = {
          "shows the unguarded (pinned) behaviour violates it. Real AsyncProtocol + FrameReader + fake transport under the virtual-time loop run "
          "generated sequences; replies, device deliveries, queue balance, producer survival, shutdown completion and the device-available payload "
          "(against the Coq netinfo encoder) are compared.",
-         "partial: payload decodability is an oracle (real decoder on a fresh device); CPython task scheduling inside one loop iteration is not modelled."),
+         "partial: payload decodability is decided by the Coq decoders of C05 for the seven kinds that have one (compared frame by frame with the real "
+         "decoder's verdict) and is an oracle (the real decoder on a fresh device) for the others; CPython task scheduling inside one loop iteration is not modelled."),
  "C10": ("Theorems C10_unique (for every sequence of frame arrivals, class-loading completions and user get() calls, the locked device-entry "
          "model creates at most one object, starts set-up exactly once per object, and every handled frame and every get() lands on that object) "
          "and C10_complete (once loading completed nothing is left waiting and every arrived frame has been handled) - closed, by invariant; "
@@ -149,7 +150,8 @@ P = {
          "monitor of the promise allows, values unmodified and in order), C20_throttle_gaps (consecutive deliveries at least the interval apart), "
          "C20_delta (delivered differences sum to last baseline - first value, current value within tolerance of the baseline), C20_aggregate "
          "(delivered sums + pending remainder = sum of inputs), C20_aggregate_mixed (for ALL sequences: refused strings / lists are no inputs - the "
-         "deliveries and the final state are those of the numeric calls alone), C20_chain (the inner filter of a chain sees exactly the outer filter's deliveries); "
+         "deliveries and the final state are those of the numeric calls alone), C20_overlap (overlapping calls - a slow callback, further calls while it "
+         "runs - deliver and leave behind exactly what the same calls do in sequence; C20_aggregate_late_reset_refuted for the defect D24), C20_chain (the inner filter of a chain sees exactly the outer filter's deliveries); "
          "real filters run the same sequences with time.monotonic patched, compared delivery by delivery.",
          "numbers are integers on the grid 2^-60 (multiples of 1/64 of bounded magnitude, and the doubles 0.05, 0.1, 0.2 ... so that a difference of "
          "exactly one tolerance - the double 0.1 - is expressible); on the generated values CPython float arithmetic and isclose agree with exact "
